@@ -290,7 +290,7 @@ export function makeCases(ctx, n, fixed = null) {
 }
 
 function runBatch(ctx, batch) {
-  const asts = gevBatch('ast', batch.flatMap((c) => c.sources.map(([p, s]) => ({ id: c.id + ':' + p, src: s, path: p }))))
+  const asts = gevBatch('ast', batch.flatMap((c) => c.sources.map(([p, s]) => ({ id: c.id + ':' + p, src: s, path: p, iters: true }))))
   const printed = compileMany(batch.map((c) => ({ id: c.id, files: c.sources, scripts: [] })), { smap: true })
   for (const c of batch) {
     const pr = printed.get(c.id)
@@ -299,6 +299,12 @@ function runBatch(ctx, batch) {
       if (!a || a.inconclusive) { ctx.report.inconc(a ? a.inconclusive : 'no ast'); continue }
       if (a.crash || (a.panics && a.panics.length)) { ctx.report.violation('parser failed', { caseSeed: c.caseSeed, source: s, panics: a.panics, crash: a.crash }); continue }
       if ((a.diags || []).some((d) => d.level >= 3)) { ctx.report.count('not_parsed_without_error'); continue }
+      // iterator monitor (gev ast): the public child iterators yield each direct child exactly once, in field order
+      if (a.iters) {
+        ctx.report.count('iter_expressions', a.iters.expressions)
+        ctx.report.count('iter_elements', a.iters.elements)
+        for (const v of a.iters.violations || []) ctx.report.violation('child iterator disagrees with the AST fields: ' + v, { caseSeed: c.caseSeed, source: s })
+      }
       checkFile(ctx, c, p, s, a, pr && pr.files && pr.files[p])
     }
     ctx.report.sample({ files: c.sources }, 2)
